@@ -14,9 +14,54 @@ def scenarios(seed, tier, failed):
         for qtype in ('deque', 'LockingDeque'):
             for pending in (1, 2, 3):
                 yield {'kind': 'placement', 'sub': kind, 'queue': qtype, 'pending': pending, 'timeout': 20}
+    # what the two delivery calls do to the pending events (the contract of LockingDeque.append / appendleft):
+    # any number pending, with or without surplus wake-up tokens (a chart pumped by hand leaves them behind)
+    rnd = random.Random(seed + 9)
+    cases = [(0, 0), (1, 0), (3, 0), (2, 498), (499, 0), (499, 1), (500, 0), (0, 500), (3, 497)]
+    for k in range(20 if tier == 'quick' else 400):
+        p = rnd.choice([0, 1, 2, 5, 250, 498, 499, 500])
+        cases.append((p, rnd.randint(0, 500 - p)))
+    for pending, surplus in cases:
+        for kind in ('fifo', 'lifo'):
+            yield {'kind': 'ld-put', 'sub': kind, 'pending': pending, 'surplus': surplus, 'timeout': 20}
+
+
+def run_ld_put(sc):
+    from miros.activeobject import LockingDeque
+    ld = LockingDeque()
+    M = ld.deque.maxlen
+    n = min(sc['pending'] + sc['surplus'], M)
+    for i in range(n):
+        ld.append('filler%d' % i)
+    for i in range(n - sc['pending']):
+        ld.deque.popleft()              # processed by hand (next_rtc / complete_circuit): the token stays behind
+    before = list(ld.deque)
+    x = object()
+    mname = 'append' if sc['sub'] == 'fifo' else 'appendleft'
+    getattr(ld, mname)(x)
+    after = list(ld.deque)
+    key = 'LockingDeque.' + mname
+    what = '%s with %d pending and %d surplus wake-up tokens' % (mname, len(before), sc['surplus'])
+    if sc['sub'] == 'fifo':
+        if not after or after[-1] is not x:
+            return False, '%s: the new event is not at the back (position %s of %d)' % (
+                what, [i for i, y in enumerate(after) if y is x], len(after)), key
+        if len(before) < M and after[:-1] != before:
+            return False, '%s: the pending events changed: %s -> %s' % (what, before[:4], after[:5]), key
+    else:
+        if not after or after[0] is not x:
+            return False, '%s: the new event is not at the front (position %s of %d)' % (
+                what, [i for i, y in enumerate(after) if y is x], len(after)), key
+        if len(before) < M and after[1:] != before:
+            return False, '%s: the pending events changed: %s -> %s' % (what, before[:4], after[:5]), key
+    if len(after) != min(len(before) + 1, M):
+        return False, '%s: %d events pending afterwards' % (what, len(after)), key
+    return True, ''
 
 
 def run(sc):
+    if sc['kind'] == 'ld-put':
+        return run_ld_put(sc)
     from miros.activeobject import ActiveFabric, LockingDeque
     from miros.event import Event
     af = ActiveFabric()
